@@ -364,6 +364,13 @@ def arg_spec(a, sp, level=0):
     if type(a) is list:
         return [arg_spec(i, sp, level + 1) for i in a]
     if type(a) is dict:
+        if level <= 1 and _has_escaped_key(a):
+            # a literal key that contains the escape code itself is un-escaped by the parser: it is written
+            # escaped once more (and a single path-like key gets its own escape on top)
+            import re
+            single = looks_like_path_spec(a)
+            esc = lambda k: (("\\" if single else "") + re.sub(r"\\path", lambda m: "\\" + m.group(), k, flags=re.I)) if type(k) is str else k  # noqa: E731
+            return {esc(k): arg_spec(v, sp, 99) for k, v in a.items()}
         if level <= 1 and looks_like_path_spec(a):
             # an escaped mapping is returned as it is by the parser: nothing inside it is
             # looked at, so nothing inside it is escaped
@@ -378,7 +385,7 @@ def arg_spec(a, sp, level=0):
 
 
 def _has_escaped_key(v):
-    return type(v) is dict and any(type(k) is str and "\\path" in k for k in v)
+    return type(v) is dict and any(type(k) is str and "\\path" in k.lower() for k in v)
 
 
 def looks_like_path_spec(d):
